@@ -1334,6 +1334,48 @@ func (prop c01) Execute(sc *sim.Scenario) *sim.Outcome {
 			}
 			dirs = append(dirs, lf{id, v})
 		}
+		// which branch every ElMax / ElMin / MaxAlong / MinAlong takes: a difference
+		// step that flips one of them has crossed a kink (a deep graph can amplify
+		// 1e-5 into more than the 1e-3 gap the generator keeps) and says nothing
+		pattern := func(pool *sim.Pool) uint64 {
+			h := sim.NewHash()
+			for _, st := range p.sc.Steps {
+				switch st.Op {
+				case "elmax", "elmin":
+					a, b := sim.Values(pool.T[st.In[0]]), sim.Values(pool.T[st.In[1]])
+					for i := range a {
+						if a[i] > b[i] {
+							h = h.Byte(1)
+						} else {
+							h = h.Byte(0)
+						}
+					}
+				case "maxalong", "minalong":
+					x, y := pool.T[st.In[0]], pool.T[st.Out]
+					xv, yv := sim.Values(x), sim.Values(y)
+					shape := x.Shape()
+					dim := st.I[0]
+					inner := 1
+					for i := dim + 1; i < len(shape); i++ {
+						inner *= shape[i]
+					}
+					n := shape[dim]
+					for o := 0; o < len(xv)/(n*inner); o++ {
+						for in := 0; in < inner; in++ {
+							for k := 0; k < n; k++ {
+								if xv[(o*n+k)*inner+in] == yv[o*inner+in] {
+									h = h.Int(k)
+									break
+								}
+							}
+						}
+					}
+				}
+			}
+			return h.Sum()
+		}
+		pat0 := pattern(main.pool)
+		crossed := false
 		F := func(t float64) (float64, bool) {
 			run := p.build(nil, false, func(pid int, flat []float64) []float64 {
 				for _, d := range dirs {
@@ -1349,6 +1391,9 @@ func (prop c01) Execute(sc *sim.Scenario) *sim.Outcome {
 			})
 			if run.err != "" {
 				return 0, false
+			}
+			if pattern(run.pool) != pat0 {
+				crossed = true
 			}
 			s := 0.0
 			for _, c := range p.bporder {
@@ -1402,6 +1447,8 @@ func (prop c01) Execute(sc *sim.Scenario) *sim.Outcome {
 					}
 				}
 				switch {
+				case crossed:
+					out.Probes["directional-fd-crossed-a-kink"]++
 				case math.Abs(d) < 1e-6 || coarse > 1e-2*math.Abs(d)+noise || fine > 1e-4*math.Abs(d)+noise:
 					out.Probes["directional-fd-inconclusive"]++
 				case math.Abs(d-gv) > 50*fine+1e-4*math.Abs(d)+10*noise+1e-11*gabs:
